@@ -93,6 +93,30 @@ class NoAttrs:
     zname = 'noattrs'
 
 
+class QuietStr(str):
+    """A name that is a str but false in a boolean context."""
+
+    def __bool__(self):
+        return False
+
+
+class SpecProxy:
+    """Hashes and compares like the specification it wraps (what a transparent proxy does)."""
+    zname = 'specproxy'
+
+    def __init__(self, spec):
+        self._spec = spec
+
+    def __hash__(self):
+        return hash(self._spec)
+
+    def __eq__(self, other):
+        return other is self or self._spec == other
+
+    def __ne__(self, other):
+        return not self == other
+
+
 class Program:
     def __init__(self, rng, tag, big):
         self.rng, self.big = rng, big
@@ -275,8 +299,10 @@ class Program:
 
     def name(self):
         r = self.rng.random()
-        if r < 0.8:
+        if r < 0.74:
             return self.rng.choice(['', '', 'a', 'b', '\xfc'])
+        if r < 0.8:
+            return self.rng.choice([QuietStr('a'), QuietStr(''), '\x00a'])
         return self.rng.choice([None, b'a', 3, ('t',)])
 
     def newval(self):
@@ -374,8 +400,10 @@ class Program:
         S, T = self.anyspec(), self.anyspec()
         if rng.random() < 0.1:
             T = self.weird()
+        elif rng.random() < 0.08:
+            T = SpecProxy(T)
         k = rng.choice(['ext', 'ioe', 'sro', 'iro', 'rebase', 'get', 'call', 'names', 'contains', 'eqhash', 'interfaces',
-                        'spb', 'sib', 'algebra', 'cpdesc', 'weakref', 'lifecycle'])
+                        'spb', 'sib', 'algebra', 'cpdesc', 'weakref', 'lifecycle', 'rename'])
         if k == 'ext':
             self.emit('%s.extends(%s)' % (R(S), R(T)), lambda: bool(S.extends(T)))
             self.emit('%s.extends(%s,False)' % (R(S), R(T)), lambda: bool(S.extends(T, False)))
@@ -433,6 +461,23 @@ class Program:
             self.emit('%s.__providedBy__' % c.__name__, lambda: list(c.__providedBy__.flattened()))
         elif k == 'weakref':
             self.emit('%s.weakref()() is S' % R(S), lambda: S.weakref()() is S)
+        elif k == 'rename':
+            # an interface renamed (or moved to another module) after it has been hashed and compared
+            def ren():
+                self.serial += 1
+                m = '%s_ren%d' % (self.mod, self.serial)
+                A = InterfaceClass('IRenA', (Interface,), {}, __module__=m)
+                B = InterfaceClass('IRenB', (Interface,), {}, __module__=m)
+                out = [hash(A) == hash(B), A == B]
+                if rng.random() < 0.5:
+                    B.__name__ = 'IRenA'
+                else:
+                    B.__name__ = 'IRenA'
+                    B.__module__ = m
+                out += [A == B, A != B, B == A, B in [A], (A,) == (B,), A <= B <= A, A < B, hash(B) == hash(B),
+                        A.isOrExtends(B), sorted([B, A])[0].__name__]
+                return out
+            self.emit('rename an interface onto another key', ren)
         elif k == 'lifecycle':
             # a short-lived interface with an attribute: queried, dropped, collected - it must really go away
             # (its weak reference dies, its base forgets the dependent) in both implementations
